@@ -15,6 +15,7 @@ import RavenModel.Model.Blob
 import RavenModel.Model.SearchImpl
 import RavenModel.Model.Slices
 import RavenModel.Model.Lifetime
+import RavenModel.Model.Deliver
 /-! Line protocol: one op per line (`op arg …`, byte-string args hex encoded, `-` = empty, `.` = empty list),
 one canonical line out. Stateful ops (`m.*`) act on the driver's mailbox-machine state. -/
 open Raven
@@ -330,6 +331,29 @@ def opsSlices : List String → Option String
       | _, _ => "panic")
   | _ => none
 
+/-- C01: `d.tx valid mimeOK folder owner…` (owner = `none` | `role:<hex>` | `user:<hex>@<hex>`): the replies, then the gain of
+every mailbox named by an owner -/
+def ownerOf (s : String) : Option Policy.Owner :=
+  if s.startsWith "role:" then some (.role (unhex (s.drop 5).toString))
+  else if s.startsWith "user:" then
+    match (s.drop 5).toString.splitOn "@" with
+    | [l, d] => some (.user (unhex l) (unhex d))
+    | _ => none
+  else none
+def ownerName : Policy.Owner → String
+  | .role a => "role:" ++ hexOut a
+  | .user l d => "user:" ++ hexOut l ++ "@" ++ hexOut d
+def opsDeliver : List String → Option String
+  | "d.tx" :: valid :: mime :: folder :: owners =>
+    let os := owners.map ownerOf
+    let tx : Deliver.Tx := { valid := valid = "1", mimeOK := mime = "1", folder := unhex folder, owners := os }
+    let (c, rs) := Deliver.deliverAll tx (fun _ => 0)
+    let keys := (os.filterMap id).eraseDups
+    some (" ".intercalate (rs.map toString) ++ " |" ++ String.join (keys.map fun o => " " ++ ownerName o ++ "=" ++ toString (c (o, tx.folder))))
+  | ["d.parts", kind, n] =>
+    some (toString (Deliver.partRows (match kind with | "single" => .single | "noboundary" => .multipartNoBoundary | _ => .multipart n.toNat!)))
+  | _ => none
+
 /-- C20 lifetime: `t.deadline state lmtpTimeout`, `t.fail state eof|deadline`, `t.bound state lmtpTimeout`, `t.srv events…` -/
 def stOf : String → Option Lifetime.St
   | "imapCmd" => some .imapCmd | "imapLiteral" => some .imapLiteral | "imapAuthWait" => some .imapAuthWait
@@ -372,7 +396,7 @@ where
   match opsMail st args with
   | some r => r
   | none =>
-    match (opsC18 args <|> opsC09 args <|> opsC10 args <|> opsC16 args <|> opsC17 args <|> opsC04 args <|> opsC13 args <|> opsMime args <|> opsBlob args <|> opsSlices args <|> opsLife args) with
+    match (opsC18 args <|> opsC09 args <|> opsC10 args <|> opsC16 args <|> opsC17 args <|> opsC04 args <|> opsC13 args <|> opsMime args <|> opsBlob args <|> opsSlices args <|> opsLife args <|> opsDeliver args) with
     | some r => (st, r)
     | none => (st, "bad-op")
 
